@@ -5,6 +5,7 @@ use yui_homology::{GridTrait, SummandTrait};
 use yui_kh::kh::{KhHomology, KhHomologyBigraded};
 use yui_kh::kh::internal::v2::cob::LcCobTrait;
 use yui_kh::kh::internal::v2::tng_complex::TngComplex;
+use yui_kh::kh::internal::v2::builder::TngComplexBuilder;
 use yui_link::Link;
 use yui::bitseq::Bit;
 use yv::links::*;
@@ -75,6 +76,46 @@ where R: EucRing, for<'x> &'x R: EucRingOps<R> {
         for i in kh.support() { let s = kh.get(i); cells.push(((i, None), group_txt(s.rank(), s.tors().iter().map(|x| tor(x)).collect()))); }
     }
     table_txt(cells)
+}
+
+/// the builder's public switches: deferred delooping, deferred / explicit elimination, crossings handed over in a random order
+fn kh_by_builder<R>(l: &Link, crossings: Vec<yui_link::Crossing>, auto_deloop: bool, auto_elim: bool, elim_at_end: bool, h: &R, t: &R, red: bool, tor: &dyn Fn(&R) -> BigInt) -> String
+where R: EucRing, for<'x> &'x R: EucRingOps<R> {
+    let base = if red { l.first_edge() } else { None };
+    let mut b = TngComplexBuilder::<R>::new(l, h, t, base);
+    b.auto_deloop = auto_deloop;
+    b.auto_elim = auto_elim;
+    b.set_crossings(crossings);
+    b.process_all();
+    b.finalize();
+    if elim_at_end { b.eliminate_all(); }
+    let kh = b.into_kh_complex().homology();
+    let cells = kh.support().map(|i| { let s = kh.get(i); ((i, None), group_txt(s.rank(), s.tors().iter().map(|x| tor(x)).collect())) }).collect();
+    table_txt(cells)
+}
+
+fn builder_case(s: &mut Sink, r: &mut Rng, c: &Case) {
+    let l = c.link.clone();
+    if l.data().len() < 2 { return }
+    let mut xs = l.data().clone();
+    if r.bool() { r.shuffle(&mut xs); }
+    let (ad, ae, end) = match r.below(4) { 0 => (false, true, false), 1 => (true, false, true), 2 => (false, false, r.bool()), _ => (true, false, false) };
+    let (h, t) = *r.pick(&[(0i64, 0i64), (1, 0), (0, 1), (2, 3)]);
+    let red = t == 0 && !l.is_empty() && r.chance(1, 3);
+    let ring = *r.pick(&[RingTag::Z64, RingTag::Q, RingTag::F2, RingTag::F3]);
+    let req = format!("kh {} {} {} {} 0 {}", ring.coeff(), h, t, red as u8, link_txt(&l));
+    let l2 = l.clone();
+    let got = guard_timeout(120, move || match ring {
+        RingTag::Q => kh_by_builder::<Ratio<i64>>(&l2, xs, ad, ae, end, &Ratio::from(h), &Ratio::from(t), red, &|_| BigInt::from(0)),
+        RingTag::F2 => kh_by_builder::<FF2>(&l2, xs, ad, ae, end, &FF2::from(h), &FF2::from(t), red, &|_| BigInt::from(0)),
+        RingTag::F3 => kh_by_builder::<FF<3>>(&l2, xs, ad, ae, end, &FF::<3>::new(h as i32), &FF::<3>::new(t as i32), red, &|_| BigInt::from(0)),
+        _ => kh_by_builder::<i64>(&l2, xs, ad, ae, end, &h, &t, red, &|x| BigInt::from(*x)),
+    });
+    let reply = match got { Some(Some(tbl)) => format!("signs={} {}", signs_txt(&l), tbl), None => "timeout".into(), _ => "panic".into() };
+    s.oracle(!(reply == "timeout" || reply == "panic"), "the builder's public switches (deferred delooping / elimination, any crossing order) terminate without panic on a valid diagram",
+        &format!("{} [{} auto_deloop={} auto_elim={} eliminate_all_at_end={}]", req, c.name, ad, ae, end), &reply);
+    s.count("route.builder-switches");
+    s.case(&req, &reply, true);
 }
 
 fn halves_case(s: &mut Sink, r: &mut Rng, c: &Case) {
@@ -259,7 +300,7 @@ fn main() {
         if n > (if thorough { 9 } else { 7 }) { continue }
         s.count(&format!("diagram.{}", c.name.split(|ch: char| !ch.is_ascii_alphabetic()).next().unwrap_or("other")));
         guarded_case(&mut s, &c.name, |s| variants(s, &mut r, c, thorough));
-        if n <= (if thorough { 8 } else { 6 }) { for _ in 0..(if thorough { 4 } else { 2 }) { guarded_case(&mut s, &c.name, |s| halves_case(s, &mut r, c)); } }
+        if n <= (if thorough { 8 } else { 6 }) { for _ in 0..(if thorough { 4 } else { 2 }) { guarded_case(&mut s, &c.name, |s| halves_case(s, &mut r, c)); guarded_case(&mut s, &c.name, |s| builder_case(s, &mut r, c)); } }
     }
     s.finish();
 }
